@@ -1053,3 +1053,78 @@ def _conv2d(func, args, kwargs):
                                     acc = T.add(acc, T.mul(px[n, ci, ii, jj], pw[co, ci, u, v]))
                     out[n, co, i, j] = acc
     return Sym.make(out, m.dtype)
+
+
+# -- random number generation: assumed distributional contracts; here only the structural part ----------------
+@handles("multinomial")
+def _multinomial(func, args, kwargs):
+    """contract: num_samples indices in [0, n); distinct when replacement=False"""
+    w = getarg(args, kwargs, 0, "input"); n = getarg(args, kwargs, 1, "num_samples"); repl = getarg(args, kwargs, 2, "replacement", False)
+    size = w.shape[-1]
+    if w.dim() != 1: raise Unsupported("batched multinomial")
+    if not repl and n > size: raise RuntimeError("cannot sample n_sample > prob_dist.size(-1) samples without replacement")
+    vs = [fresh("multinomial", I) for _ in range(n)]
+    ctx = C()
+    for v in vs: ctx.assume(z3.And(v >= 0, v < size))
+    if not repl and n > 1: ctx.assume(z3.Distinct(vs))
+    s = Sym.make(obj_array(vs), torch.int64)
+    s._g = {"taint": "random"}
+    return s
+
+
+def _rand_like(name, sort, dtype_default, constrain=None):
+    def h(func, args, kwargs):
+        nm = func_name(func)
+        if nm.endswith("_like"):
+            shape = tuple(args[0].shape); dt = kwargs.get("dtype") or args[0].dtype
+        else:
+            shape = shape_args(args, kwargs, 0, "size") if args else tuple(kwargs["size"])
+            dt = kwargs.get("dtype") or dtype_default()
+        out = np.empty(shape, dtype=object)
+        ctx = C()
+        for idx in np.ndindex(*shape):
+            v = fresh(name, sort)
+            if constrain: ctx.assume(constrain(v))
+            out[idx] = v
+        s = Sym.make(out, dt)
+        s._g = {"taint": "random"}
+        ctx.notes.setdefault("random_draws", []).append((name, s))
+        return s
+    return h
+
+
+handles("randn", "randn_like")(_rand_like("randn", R, torch.get_default_dtype))
+handles("rand", "rand_like")(_rand_like("rand", R, torch.get_default_dtype, lambda v: z3.And(v >= 0, v < 1)))
+
+
+@handles("randperm")
+def _randperm(func, args, kwargs):
+    n = args[0]
+    vs = [fresh("randperm", I) for _ in range(n)]
+    ctx = C()
+    for v in vs: ctx.assume(z3.And(v >= 0, v < n))
+    if n > 1: ctx.assume(z3.Distinct(vs))
+    s = Sym.make(obj_array(vs), torch.int64)
+    s._g = {"taint": "random"}
+    return s
+
+
+@handles("randint")
+def _randint(func, args, kwargs):
+    a = list(args)
+    if "low" in kwargs or "high" in kwargs:
+        low = kwargs.get("low", 0); high = kwargs["high"]; size = kwargs.get("size", a[0] if a else None)
+    elif len(a) >= 3 and not isinstance(a[1], (tuple, list, torch.Size)):
+        low, high, size = a[0], a[1], a[2]
+    else:
+        low, high, size = 0, a[0], a[1]
+    lo, hi = lift(low), lift(high)
+    out = np.empty(tuple(size), dtype=object)
+    ctx = C()
+    for idx in np.ndindex(*tuple(size)):
+        v = fresh("randint", I)
+        ctx.assume(z3.And(v >= toint(lo), v < toint(hi)))
+        out[idx] = v
+    s = Sym.make(out, kwargs.get("dtype") or torch.int64)
+    s._g = {"taint": "random"}
+    return s
